@@ -520,6 +520,8 @@ def value_getattr(ip, obj, name):
       return NotImplemented
     if name == "dtype":
       return "float32"
+    if name == "get_shape":
+      return Builtin("get_shape", lambda ip_: shape_of(obj))
     if name == "set_shape":
       return Builtin("set_shape", lambda ip_, *a, **k: None)
     if name == "tolist":
@@ -664,6 +666,8 @@ ALIASES = [
     ("tensorflow.python.keras.utils.tf_utils", "smart_cond"),
     ("tf.python.framework.smart_cond", "smart_cond"),
     ("tf.python.keras.utils.tf_utils", "smart_cond"),
+    ("tf.python.ops.math_ops", "math_ops"),
+    ("tf.python.ops.array_ops", "array_ops"),
     ("tensorflow.keras.backend", "K"),
     ("tf.keras.backend", "K"),
     ("tensorflow", "tf"),
@@ -1069,6 +1073,8 @@ def _tf_identity(ip, x, *a, **k):
 
 @model("K.cast", "tf.cast")
 def _tf_cast(ip, x, dtype=None, **k):
+  if isinstance(x, bool) and (dtype is bool or str(dtype) in ("bool", "<extclass bool>") or getattr(dtype, "name", "") == "bool"):
+    return x
   if isinstance(x, Term):
     return Term("cast", (x, dtype))
   if isinstance(x, SBool):
@@ -1577,6 +1583,75 @@ def _tf_random_uniform(ip, shape=None, minval=0, maxval=None, **k):
   if draws is not None:
     draws.append((u, lo, hi))
   return SNum(u, "tensor", z3.RealVal(0) if ip_tracks_grad(ip) else None)
+
+
+_LIN_FUNS = {}
+
+
+def linear_op(kind, key):
+  """Uninterpreted convolution-like operator of ONE kernel element / output channel, for fixed inputs and
+  hyper-parameters: a function Real -> Real.  Linearity in the kernel (K1) is supplied by contracts as
+  explicit instances f(s*k) == s*f(k)."""
+  k = (kind, key)
+  if k not in _LIN_FUNS:
+    _LIN_FUNS[k] = z3.Function("%s#%d" % (kind, len(_LIN_FUNS)), z3.RealSort(), z3.RealSort())
+  return _LIN_FUNS[k]
+
+
+def _conv_like(kind):
+  def fn(ip, inputs, kernel, *a, **k):
+    if isinstance(kernel, SNum):
+      key = repr((repr(inputs), tuple(repr(x) for x in a), tuple(sorted((kk, repr(vv)) for kk, vv in k.items()))))
+      f = linear_op(kind, key)
+      return SNum(f(R(kernel.e)), "tensor", None, {"shape": (2, 3, 3, 4), "linear_op": (kind, key)})
+    return Term("K." + kind, (inputs, kernel) + tuple(a), k)
+  return fn
+
+
+for _k in ("conv2d", "depthwise_conv2d", "conv1d"):
+  TABLE["K." + _k] = Builtin("K." + _k, _conv_like(_k))
+
+
+@model("K.bias_add")
+def _k_bias_add(ip, x, b, **k):
+  if isinstance(x, SNum) or isinstance(b, SNum):
+    return ip.binop(ast.Add(), T(ip, x), b)
+  return Term("K.bias_add", (x, b), k)
+
+
+RSQRT = z3.Function("rsqrt", z3.RealSort(), z3.RealSort())
+
+
+@model("math_ops.rsqrt", "tf.math.rsqrt", "tf.rsqrt")
+def _rsqrt(ip, x):
+  if isinstance(x, Term):
+    return Term("rsqrt", (x,))
+  x = T(ip, x)
+  r = RSQRT(R(x.e))
+  ip.assume(z3.Implies(R(x.e) > 0, r > 0))
+  return SNum(r, "tensor")
+
+
+@model("math_ops.sqrt")
+def _mo_sqrt(ip, x):
+  if isinstance(x, Term):
+    return Term("sqrt", (x,))
+  return _sym_sqrt(ip, T(ip, x))
+
+
+@model("math_ops.mul", "math_ops.multiply")
+def _mo_mul(ip, a, b):
+  return ip.binop(ast.Mult(), a, b)
+
+
+@model("math_ops.cast")
+def _mo_cast(ip, x, dtype=None, **k):
+  return x
+
+
+@model("array_ops.reshape")
+def _ao_reshape(ip, x, shape):
+  return x if not isinstance(x, Term) else Term("reshape", (x, tuple(shape) if isinstance(shape, (list, tuple)) else shape))
 
 
 @model("tf.nest.is_nested", "tf.python.util.nest.is_nested", "tf.nest.is_sequence")
